@@ -178,6 +178,52 @@ def run(ctx):
         ctx.ob('C13-D5', F, 'bound compared with data_len', 'derived from every supplied range (iterator traversal), not from one indexed element',
                bool(whole) and not single, detail='origins: %s' % '; '.join(t[:110] for t in terms)[:600], site=loc(fn.B[bi]['t'].get('span')))
 
+        # ... and EVERY element of the traversal contributes to it: inside the loop that accumulates the bound, no path from the iterator's next() back
+        # to next() avoids the accumulation step (a `continue` for some kind of range -- e.g. BMFF offset markers -- lets that kind reach past the end
+        # of the data unchecked).  Paths that leave the loop with Err are fine (they do not come back to next()).
+        skip = []
+        checked_loops = 0
+
+        def loop_skips(f, must):
+            nonlocal checked_loops
+            for nb2, t2 in f.calls():
+                if not t2['fd'].endswith('Iterator::next') or t2.get('t') is None:
+                    continue
+                body = f.reachable(t2['t'], avoid=(nb2,))
+                inloop = [m for m in must if m in body and nb2 in f.reachable(m)]
+                if not inloop:
+                    continue
+                checked_loops += 1
+                if nb2 in f.reachable(t2['t'], avoid=tuple(inloop)):
+                    skip.append('%s: loop at %s' % (f.name.split('::')[-1], loc(t2.get('span'))))
+
+        def chase(f, l, seen=()):
+            ds = [d for d in f.defs.get(l, ()) if d[0] in ('stmt', 'call')]
+            if len(ds) == 1 and ds[0][0] == 'stmt' and ds[0][3]['k'] == 'use' and 'l' in ds[0][3]['o'] and not ds[0][3]['o'].get('p') and l not in seen:
+                return chase(f, ds[0][3]['o']['l'], seen + (l,))
+            return l
+        if 'l' in other and not other.get('p'):
+            acc = chase(fn, other['l'])
+            accn = fn.name_of(acc)
+            must = [d[1] for d in fn.defs.get(acc, ()) if d[0] in ('stmt', 'call')]
+            if not re.search(r'(Ord::max|cmp::max)\(', alltxt):
+                # guarded-assignment form: the step every element must reach is the comparison with the accumulator, not the (conditional) assignment
+                must = [bi2 for bi2, blk in enumerate(fn.B) for dst, rv2 in blk['s'] if rv2['k'] == 'bin' and rv2['op'] in ('Lt', 'Le', 'Gt', 'Ge') and accn in (T.op_term(fn, rv2['a']), T.op_term(fn, rv2['b']))
+                        and 'checked_add' in (T.op_term(fn, rv2['a']) + T.op_term(fn, rv2['b']))]
+            loop_skips(fn, must)
+        for o in org:
+            inner = o
+            while inner and inner[0] == 'field':
+                inner = inner[1]
+            if inner and inner[0] == 'call':
+                for tgt in prog.callee_targets(fn.B[inner[1]]['t']):
+                    if prog.has(tgt) and 'hash_utils' in tgt and tgt != F:
+                        hf = prog.fn(tgt)
+                        loop_skips(hf, [b2 for b2, t2 in hf.calls() if re.search(r'(Ord::max|cmp::max)$', t2['fd'].split('<')[0].rstrip(':')) or re.search(r'::max$', t2['fd'])])
+        adaptors = re.findall(r'Iterator::(filter|filter_map|skip|skip_while|take|take_while|step_by)\b', alltxt)
+        ctx.ob('C13-D5', F, 'bound compared with data_len', 'every element of the traversal reaches the accumulation step (no continue / filter that exempts a kind of range)',
+               not skip and not adaptors and (checked_loops > 0 or bool(whole)), detail='; '.join(skip + adaptors) or 'loops checked: %d' % checked_loops, site=loc(fn.B[bi]['t'].get('span')))
+
     # D2: raw arithmetic on caller-controlled range values
     nraw = 0
     for bi, si, dst, rv in _bins(fn):
